@@ -1050,18 +1050,33 @@ class StreamSummary(StreamResult):
         if "reason" not in case._details:
             reason = "Unknown"
         else:
-            reason = case._details["reason"].as_text()
+            reason = self._summarise(
+                lambda: case._details["reason"].as_text(), case
+            )
         self.skipped.append((case, reason))
+
+    @staticmethod
+    def _summarise(render, case):
+        # The summary must never get in the way of the events themselves:
+        # details are arbitrary bytes and need not decode.
+        try:
+            return render()
+        except (ValueError, LookupError) as e:
+            return "Undecodable details for %s: %s" % (case.id(), e)
 
     def _exists(self, case):
         pass
 
     def _fail(self, case):
-        message = _details_to_str(case._details, special="traceback")
+        message = self._summarise(
+            lambda: _details_to_str(case._details, special="traceback"), case
+        )
         self.errors.append((case, message))
 
     def _xfail(self, case):
-        message = _details_to_str(case._details, special="traceback")
+        message = self._summarise(
+            lambda: _details_to_str(case._details, special="traceback"), case
+        )
         self.expectedFailures.append((case, message))
 
     def _uxsuccess(self, case):
